@@ -95,6 +95,7 @@ class JsonWebSignature:
             raise DecodeError("Not enough segments") from exc
 
         protected = _extract_header(protected_segment)
+        self._validate_crit_headers(protected)
         jws_header = JWSHeader(protected, None)
 
         payload = _extract_payload(payload_segment)
@@ -272,6 +273,20 @@ class JsonWebSignature:
                 if k not in names:
                     raise InvalidHeaderParameterNameError(k)
 
+    def _validate_crit_headers(self, protected):
+        # RFC 7515 section 4.1.11: a JWS that lists under "crit" an extension
+        # the recipient does not understand, or that is not in the header,
+        # MUST be rejected
+        if "crit" not in protected:
+            return
+        crit = protected["crit"]
+        names = set(self._private_headers or [])
+        if not isinstance(crit, list) or not crit:
+            raise InvalidHeaderParameterNameError("crit")
+        for k in crit:
+            if not isinstance(k, str) or k not in names or k not in protected:
+                raise InvalidHeaderParameterNameError(k)
+
     def _validate_json_jws(self, payload_segment, payload, header_obj, key):
         protected_segment = header_obj.get("protected")
         if not protected_segment:
@@ -283,6 +298,7 @@ class JsonWebSignature:
 
         protected_segment = to_bytes(protected_segment)
         protected = _extract_header(protected_segment)
+        self._validate_crit_headers(protected)
         header = header_obj.get("header")
         if header and not isinstance(header, dict):
             raise DecodeError('Invalid "header" value')
